@@ -186,6 +186,10 @@ type typechecker struct {
 	// toBeEmitted reports whether the current branch of the tree will be
 	// emitted or not.
 	toBeEmitted bool
+
+	// inURL reports whether the type checker is currently checking the nodes
+	// of a URL.
+	inURL bool
 }
 
 // usingCheck contains information about the type checking of a 'using'
